@@ -25,6 +25,28 @@ def rand_bytes(rng, n, mode):
     return bytes(rng.choice(ALPH) if rng.random() < 0.9 else rng.randrange(256) for _ in range(n))
 
 
+INT32_MAX = 2147483647
+
+
+def big_ok():
+    """can this machine hold a 2 GiB input buffer (+ ASan shadow)?"""
+    try:
+        import resource, mmap
+        if resource.getrlimit(resource.RLIMIT_AS)[0] != resource.RLIM_INFINITY:
+            return False
+        avail = 0
+        for l in open("/proc/meminfo"):
+            if l.startswith("MemAvailable:"):
+                avail = int(l.split()[1]) * 1024
+        if avail < (8 << 30):
+            return False
+        m = mmap.mmap(-1, 3 << 30, flags=mmap.MAP_PRIVATE | mmap.MAP_ANONYMOUS | getattr(mmap, "MAP_NORESERVE", 0))
+        m.close()
+        return True
+    except Exception:
+        return False
+
+
 def gen(rng, tier):
     n = 2500 if tier == "quick" else 80000
     out = []
@@ -60,6 +82,16 @@ def gen(rng, tier):
             ops = ops + ["R"] + second + ["N"] + second
             kind += "-reuse"
         out.append((line(depth, fl, ops), {"kind": kind, "reuse": reuse}))
+    # the input size guard: a NUL-terminated input (len = -1) of INT32_MAX bytes or more is refused with the
+    # size error before anything is read (the int end-position counter would overflow); small inputs of the same
+    # shapes run normally.  (2 GiB buffers: only where the memory is there.)
+    for mode in (0, 1, 2):
+        for nn in (1, 2, 5, 40, 300):
+            out.append((line(32, rng.choice([0, 1]), ["B%d,%d" % (mode, nn)]), {"kind": "cstr-shape", "reuse": False}))
+    if big_ok():
+        for mode, nn in ((0, INT32_MAX), (1, INT32_MAX + 1)) if tier == "quick" else ((0, INT32_MAX), (1, INT32_MAX), (2, INT32_MAX), (0, INT32_MAX + 1), (1, INT32_MAX + 7)):
+            second = ["P" + hx(b"[1]"), "P" + hx(b" ")]
+            out.append((line(32, 0, ["B%d,%d" % (mode, nn), "R"] + second + ["N"] + second), {"kind": "cstr-2GiB", "reuse": True}))
     # an allocation failure during a parse, then reset and reuse: the reset parser must still behave like a new one
     # (and nothing may be leaked or corrupted): every allocation index of a few documents with long tokens
     docs = [b'{"' + b"k" * 40 + b'": ["' + b"v" * 70 + b'", 1.25, {"n": [null, true]}], "z": "' + b"\\u00e9" * 12 + b'"}',
@@ -87,12 +119,16 @@ def oracle(line_, meta, impl):
     if len(steps) != len(ops):
         return ("malformed", impl[:100])
     for op, st in zip(ops, steps):
-        if op[0] in "PZ":
+        if op[0] in "PZB":
             if st == ("skipped",):
                 continue
             if len(st) != 3:
                 return ("malformed", impl[:100])
             n = 0 if op[1:] == "-" else len(op[1:]) // 2
+            if op[0] == "B":
+                n = int(op.split(",")[1]) + 1
+                if n > INT32_MAX and st[0] != "size":
+                    return ("size-guard", "a NUL-terminated input of %d bytes was not refused with the size error: %s" % (n - 1, st[0]))
             if op[0] == "Z":
                 n += 1          # the terminating NUL belongs to the bytes given
             if not (0 <= st[1] <= n):
